@@ -133,7 +133,7 @@ func runKillCase(rec *vkit.Recorder, c *killCase) []vkit.Violation {
 		}
 		var first string
 		for r := 0; r < 3; r++ {
-			tm := newTM(store)
+			tm := newTMWired(store)
 			if err := tm.Load(); err != nil {
 				vs = append(vs, vkit.Violation{Key: "C09/killed-write/next-start-fails", Msg: fmt.Sprintf("process killed when the write of B reached byte %d of %d: start %d fails: %v", n, size, r+1, err)})
 				break
